@@ -102,6 +102,40 @@ CHECKS = {
             'through 7 entry points in a child process under both builds (crash, sanitizer report or outcome outside the allowed set = '
             'violation); depth limit +-2 for 9 kinds bound to the model by offset; every operation at the limit; 44 functions x 27 argument confusions.',
             'The specification cannot see an out-of-bounds read that returns a plausible value: the sanitizer build and the guarded-read outcome comparison are the observers. Only the enumerated matrices are covered.', '5 C16'),
+    'C14': ('model_checking',
+            'HeapHist.tla: all histories of mutate-source / mutate-each-hand-out / operand uses (succeeding and failing) / unregister / re-register / delete / gc; TLC invariant Immutable; each history replayed with full re-observation after every step, judged by TLC',
+            'TLC checks Immutable on every history to the bound (and must violate it when a hand-out is declared aliased); each history is '
+            'replayed on a tree with every dict kind, deque, namedtuple and a custom node with entries: after every step the treespec and '
+            'four partner treespecs are fully re-observed, all inputs are compared with pre-call snapshots, leaves must not be retained, '
+            'cycles through metadata must be collected.',
+            'As C01. __getstate__ and PyTreeSpec.walk hand out internal lists; they are not among the methods the property lists and are only exercised, not asserted.', '5 C14'),
+    'C17': ('model_checking',
+            'Threads.tla: all interleavings at callback granularity under a GIL token and an explicit registry lock (TLC: deadlock freedom, no torn lookup, exactly-once, mutual exclusion); every terminal schedule replayed on real threads by a cooperative scheduler with a watchdog; preemptive stress',
+            'TLC explores every interleaving of 2-3 code-shaped operations (flatten with is_leaf, registration with a class-attribute hook '
+            'under the write lock, plain (un)registration, shared iterator) and checks NoDeadlock / NoTornLookup / ExactlyOnce / '
+            'MutualExclusion; each distinct terminal schedule is replayed on real threads whose callbacks park on semaphores, so the real '
+            'interleaving is the model behaviour; a hang (no progress 25 s, confirmed in isolation), an exception, a duplicated or lost leaf, '
+            'or two winners of one registration is a violation; 24-thread preemptive stress with 1 us switch interval.',
+            'GIL build of CPython 3.12 only; Py_GIL_DISABLED paths are compiled out. The as-found lock design (wait while holding the GIL) is kept in the model as a constant and must deadlock in TLC (vacuity guard).', '5 C17'),
+    'C18': ('model_checking',
+            'ClassGen.tla (trait vectors + cache machine with eviction/capacity; TLC invariant: answer = ground truth in every cache state) replayed on synthesised classes through engine and twins; sort and one-level twins judged by TLC against PyTreeSem',
+            'TLC checks the cache machine for every history to the bound (and finds the stale-address counterexample when eviction is '
+            'switched off); every trait vector and cache history is replayed on synthesised classes through the engine and the pure-Python '
+            'twin; thousands of transient classes exceed the cap and reuse addresses (count reported); TotalOrderSorted vs '
+            'utils.total_order_sorted vs engine on all key lists; tree_flatten_one_level vs engine view vs layer D on all one-level nodes.',
+            'As C01. PyPy branches are not executable here. Partially ordered keys (frozenset) are compared twin-vs-engine only.', '5 C18'),
+    'C19': ('model_checking',
+            'LayoutGen.tla enumerates all field layouts with the layout rule (TLC: algebra of the rule); every layout built through decorator / make_dataclass / inherited x 8 flag sets and judged by TLC; partial configurations',
+            'TLC checks the layout rule on every sequence of field descriptors to the bound; each layout is realised as classes through '
+            'three construction routes and eight class-flag sets; children / metadata / entries / round trip with __post_init__ re-run / '
+            'namespace isolation / rejections / equality with the dataclasses.dataclass twin are judged; optree.functools.partial over nested partials.',
+            'As C01.', '5 C19'),
+    'C20': ('model_checking',
+            'RavelGen.tla tag model of ravel/unravel (TLC: both inverse laws, offsets, rejection rules on every leaf list to the bound); same leaf lists as real numpy / jax / torch arrays judged by TLC; numpy joint-promotion sweep',
+            'TLC checks the inverse laws on every list of leaves (6 shapes incl. zero-size and rank 0, 4 dtype kinds); each is built on all '
+            'three backends in narrow and wide dtypes, embedded in 5 structures x none_is_leaf; flat content, promoted dtype (backend joint '
+            'promotion), unravel(ravel(t)) = t, ravel(unravel(v)) = v, rejections; all ordered dtype triples on numpy.',
+            'Numeric fidelity of the array libraries is not claimed; elements are small integer tags.', '5 C20'),
 }
 
 NOT_YET = {}
